@@ -3,6 +3,7 @@
 # (framework worktree /tmp/vb/st synced to /verif HEAD + uncommitted harness/coq changes, slip worktree /tmp/vb/st-repo)
 ID=$1; shift
 lc=$(echo $ID | tr A-Z a-z)
+mkdir -p /tmp/vb; [ -d /tmp/vb/st ] || git -C /verif worktree add -q -f --detach /tmp/vb/st HEAD; [ -d /tmp/vb/st-repo ] || git -C /repo worktree add -q -f --detach /tmp/vb/st-repo HEAD
 cd /tmp/vb/st && git checkout -q --detach $(git -C /verif rev-parse HEAD) 2>/dev/null
 rsync -a --exclude build --exclude 'coq/gen' --exclude '*.vo' --exclude '*.glob' --exclude '*.aux' --exclude '.git' --exclude replay --exclude evidence /verif/harness /verif/coq /verif/props /verif/known_findings /verif/check /verif/tools /tmp/vb/st/ 2>/dev/null
 git -C /tmp/vb/st-repo checkout -q --detach $(git -C /repo rev-parse HEAD); git -C /tmp/vb/st-repo checkout -- .
